@@ -356,10 +356,19 @@ func (cv CertValidity) toTimeStruct() (config.CertificateValidity, error) {
 
 			all := durationRx.FindStringSubmatch(cv.Duration)
 
-			// schema already tells us it's conforming, so we ignore errors here
-			y, _ := strconv.Atoi(all[2])
-			m, _ := strconv.Atoi(all[4])
-			d, _ := strconv.Atoi(all[6])
+			// schema already tells us it's conforming, but the numbers may still be too large
+			y, err := durationPart(all[2])
+			if err != nil {
+				return out, errors.New(`config-v1: "duration" is out of range`)
+			}
+			m, err := durationPart(all[4])
+			if err != nil {
+				return out, errors.New(`config-v1: "duration" is out of range`)
+			}
+			d, err := durationPart(all[6])
+			if err != nil {
+				return out, errors.New(`config-v1: "duration" is out of range`)
+			}
 
 			out.Until = out.From.AddDate(y, m, d)
 			out.IsSet = true
@@ -369,7 +378,28 @@ func (cv CertValidity) toTimeStruct() (config.CertificateValidity, error) {
 		}
 	}
 
+	//certificates (and the config hash) can't represent years beyond 9999
+	if year := out.Until.Year(); year < 0 || year > 9999 {
+		return out, errors.New(`config-v1: validity ends outside of the years 0-9999`)
+	}
+
 	return out, nil
+}
+
+// durationPart converts one optional component of a duration. An absent component counts as zero.
+// Components larger than ten thousand years worth of days can't lead to a representable date.
+func durationPart(s string) (int, error) {
+	if len(s) == 0 {
+		return 0, nil
+	}
+	n, err := strconv.Atoi(s)
+	if err != nil {
+		return 0, err
+	}
+	if n > 3660000 {
+		return 0, errors.New("config-v1: duration component too large")
+	}
+	return n, nil
 }
 
 func initCertificate(c CertConfig) (*config.CertificateContent, error) {
